@@ -307,6 +307,8 @@ def _run_handler_obs(h, sel, segs, vals):
     arg, syms = _build_bytevec(sel, segs)
     try:
         va = h(arg)
+    except MemoryError:
+        raise
     except Exception as e:  # noqa: BLE001
         return [_classify_exc(e)] * len(vals)
     out = []
@@ -325,7 +327,57 @@ def _run_handler_obs(h, sel, segs, vals):
     return out
 
 
+CASE_TIMEOUT_S = 60
+
+
+def _pool_init():
+    import resource
+
+    lim = 4 << 30
+    try:
+        resource.setrlimit(resource.RLIMIT_AS, (lim, lim))
+    except (ValueError, OSError):
+        pass
+
+
+class _CaseTimeout(Exception):
+    pass
+
+
+def _guarded(fn, case, n):
+    """run fn(case) under an alarm; on timeout / MemoryError return n observations naming it"""
+    import signal
+
+    def on_alarm(signum, frame):
+        raise _CaseTimeout()
+
+    old = signal.signal(signal.SIGALRM, on_alarm)
+    signal.alarm(CASE_TIMEOUT_S)
+    try:
+        return fn(case)
+    except _CaseTimeout:
+        return None if n is None else [["EXC TimeoutError"]] * n
+    except MemoryError:
+        return None if n is None else [["EXC MemoryError"]] * n
+    finally:
+        signal.alarm(0)
+        signal.signal(signal.SIGALRM, old)
+
+
 def impl_l1(case):
+    return _guarded(_impl_l1, case, len(case["vals"]))
+
+
+def impl_sig(case):
+    return _guarded(_impl_sig, case, len(case["probes"]))
+
+
+def impl_l2(case):
+    r = _guarded(_impl_l2, case, None)
+    return r if r is not None else {"exc": "TimeoutOrMemoryError"}
+
+
+def _impl_l1(case):
     from halmos.assertions import assert_cheatcode_handler
 
     h = assert_cheatcode_handler.get(case["sel"])
@@ -334,7 +386,7 @@ def impl_l1(case):
     return _run_handler_obs(h, case["sel"], case["segs"], case["vals"])
 
 
-def impl_sig(case):
+def _impl_sig(case):
     """mk_assert_handler on a signature string, then the handler on probe calldata"""
     from halmos.assertions import mk_assert_handler
     from halmos.exceptions import HalmosException
@@ -607,7 +659,7 @@ def assume_holds(spec, val):
     return _signed(x) < _signed(spec[2])
 
 
-def impl_l2(case):
+def _impl_l2(case):
     """returns {"paths": [...per yielded path: flag, stuck, error, depth, holds-per-valuation], "checks": [...]} or {"exc": name}"""
     import z3
 
@@ -785,7 +837,7 @@ def gen_l2(tier, r, table):
 # ----------------------------------------------------------------- comparison helpers
 
 def is_huge(obs):
-    return isinstance(obs, list) and obs and isinstance(obs[0], str) and obs[0] in ("EXC OverflowError", "EXC MemoryError")
+    return isinstance(obs, list) and obs and isinstance(obs[0], str) and obs[0] in ("EXC OverflowError", "EXC MemoryError", "EXC TimeoutError", "EXC _CaseTimeout")
 
 
 def enc_sig_cd(sig, cd):
@@ -948,7 +1000,7 @@ def run(rep, tier):
     # ---- L1
     cases = gen_l1(tier, r, table)
     sig_cases = [{"kind": "sig", "sig": s, "probes": probes(r)} for s in gen_sigs(tier, r, [render(d) for d in table.values()])]
-    with Pool(min(16, os.cpu_count() or 4)) as pool:
+    with Pool(min(16, os.cpu_count() or 4), initializer=_pool_init) as pool:
         impl = pool.map(impl_l1, cases, chunksize=32)
         impl_s = pool.map(impl_sig, sig_cases, chunksize=8)
         lap("impl_l1")
@@ -1061,6 +1113,17 @@ def run(rep, tier):
 def replay(rep, body):
     for f in body.get("failures", []):
         case = f.get("case") or {}
+        print(f.get("kind"), ":", (f.get("what") or "")[:300])
+        if case.get("l2"):
+            d = [list(x) for x in spec_descrs() if render(x) == case.get("sig")]
+            c = {"kind": "l2", "mode": case["mode"], "depth": case["depth"], "assume": case["assume"], "sig": case["sig"], "sel": case["sel"],
+                 "descr": d[0] if d else None, "segs": case["segs"], "vals": [case.get("valuation") or {}]}
+            print("L2 case       :", {k: c[k] for k in ("mode", "depth", "assume", "sig", "segs", "vals")})
+            print("implementation:", impl_l2(c))
+            if d:
+                cd = c["sel"].to_bytes(4, "big") + concretize(c["segs"], c["vals"][0] or {s[1]: 0 for s in c["segs"] if s[0] != "c"})
+                print("spec          : assumption holds =", assume_holds(c["assume"], c["vals"][0]) if c["vals"][0] or c["assume"][0] == "const" else "?", "; relation =", spec_assert(tuple(d[0]), cd))
+            continue
         if "segs" in case and isinstance(case["segs"], list):
             c = {"sel": case["sel"], "segs": case["segs"], "vals": [case.get("valuation") or {}]}
             print("case          :", case.get("sig"), case.get("calldata"))
